@@ -130,3 +130,32 @@ def frame_gt(objects, *, time=1000, name="0", ego: EgoPose | None = None, raw=No
 
 def vid(o):
     return getattr(o, "_verif_id", None)
+
+
+def derive(o):
+    """the same object as `o`, not built afresh but DERIVED by the library: interpolated half way between two copies of it displaced by -d / +d that
+    have already been looked at through every geometric getter (whatever those cache travels along with the deepcopy inside
+    interpolate_dynamic_object).  Lattice positions are reproduced exactly."""
+    from copy import deepcopy
+
+    from perception_eval.common.geometry import interpolate_dynamic_object
+
+    d = np.array([4.0, -2.0, 0.0])
+    lo, hi = deepcopy(o), deepcopy(o)
+    lo.state.position = tuple(float(v) for v in (np.array(o.state.position) - d))
+    hi.state.position = tuple(float(v) for v in (np.array(o.state.position) + d))
+    lo.unix_time, hi.unix_time = o.unix_time - 500, o.unix_time + 500
+    for x in (lo, hi):
+        for getter in ("get_footprint", "get_corners", "get_area_bev", "get_volume"):
+            try:
+                getattr(x, getter)()
+            except Exception:
+                pass
+        for getter in ("get_distance_bev", "get_heading_bev", "get_distance"):
+            try:
+                getattr(x, getter)()
+            except Exception:
+                pass
+    out = interpolate_dynamic_object(lo, hi, lo.unix_time, hi.unix_time, o.unix_time)
+    out._verif_id = getattr(o, "_verif_id", None)
+    return out
